@@ -599,6 +599,7 @@ func (s *r3State) apiPath(p *core.Path, isSource func(*types.Var) bool) {
 	slotLocal := map[*types.Var]bool{}
 	okVar := map[*types.Var]*types.Var{} // comma-ok bool -> record local
 	nonNil := map[*types.Var]bool{}
+	freshCh := map[*types.Var]bool{} // channel locals holding a channel made on this path
 	type slotWrite struct {
 		ev *core.Event
 	}
@@ -754,7 +755,39 @@ func (s *r3State) apiPath(p *core.Path, isSource func(*types.Var) bool) {
 			}
 			s.note("R3b", construct, ev.Pos, bad, why, p)
 		case core.KReturn:
-			// returning a chain value to the caller is not retention, but keep the sources known
+			// returning a chain value to the caller is not retention, but keep the sources known.
+			// What an exported method returns as "closed when the earlier instances have returned" is a
+			// chain value (or nil), never a channel made on this path: a fresh (closed) channel says the
+			// predecessors are gone while a detached one may still be executing
+			if ev.Frame.Parent == nil && ev.Frame.Fn != nil && ev.Frame.Fn.Exported() {
+				for _, r := range returnExprs(p, i) {
+					if v := identVar(r, ev.Frame); v != nil && !v.IsField() && isChanType(v.Type()) {
+						s.note("R3e", core.FuncName(ev.Frame.Fn)+"/returned-channel-is-chain-value", ev.Pos, freshCh[v],
+							"the channel returned to the caller was made on this path instead of being taken from the chain of exit channels: it can be closed while an earlier (detached) instance is still executing", p)
+					}
+				}
+			}
+		}
+		// channels made on this path, followed through locals and helper results
+		if ev.Kind == core.KAssign && !ev.FieldInit {
+			if lv := identVar(ev.Lhs, ev.Frame); lv != nil && !lv.IsField() && isChanType(lv.Type()) {
+				fresh := false
+				if ev.RetEv != nil {
+					if _, rv := retResult(ev.RetEv, ev.RhsIdx); rv != nil && freshCh[rv] {
+						fresh = true
+					}
+				} else if ev.Rhs != nil && ev.RhsIdx < 0 {
+					if call, ok := unparen(ev.Rhs).(*ast.CallExpr); ok {
+						if id, ok := unparen(call.Fun).(*ast.Ident); ok && id.Name == "make" {
+							fresh = true
+						}
+					}
+					if rv := identVar(ev.Rhs, ev.Frame); rv != nil && freshCh[rv] {
+						fresh = true
+					}
+				}
+				freshCh[lv] = fresh
+			}
 		}
 		fl.step(i, ev)
 		// collect sources created by local assignments (taints of locals)
